@@ -225,11 +225,18 @@ Prods(h) ==
 (* the machine *)
 \* where derivations start: the whole query, or (per-object profiles) the body of
 \*   ds.SelectMany(lambda e: e.<A>("bk1")).Select(lambda e: <hole>)
-StartToks == IF Prof.start = "perobj"
-             THEN <<Tok("Select", "e", "", 0, 1), Tok("SelectMany", "e", "", 0, 1), Tok("DS", "", "", 0, 1),
-                    Tok("Coll", "A", "bk1", 0, 1), Tok("Var", "e", "", 0, 1)>>
-             ELSE <<>>
-StartAgenda == IF Prof.start = "perobj" THEN <<Hole(ROW, <<[x |-> "e", ty |-> O("A")]>>)>>
+\*   "perobj_div" / "perobj_rdiv": the body is  <hole> / <int constant>  /  <int constant> / <hole>  - the context in which
+\*   an expression whose C++ type is not the type the translator thinks it has shows as an integer division
+PerObjToks == <<Tok("Select", "e", "", 0, 1), Tok("SelectMany", "e", "", 0, 1), Tok("DS", "", "", 0, 1),
+                Tok("Coll", "A", "bk1", 0, 1), Tok("Var", "e", "", 0, 1)>>
+PerObjEnv == <<[x |-> "e", ty |-> O("A")]>>
+StartToks == CASE Prof.start = "perobj" -> PerObjToks
+               [] Prof.start = "perobj_div" -> Append(PerObjToks, Tok("Bin", "/", "", 0, 1))
+               [] Prof.start = "perobj_rdiv" -> PerObjToks \o <<Tok("Bin", "/", "", 0, 1), Tok("Const", "int", "", 2, 1)>>
+               [] OTHER -> <<>>
+StartAgenda == IF Prof.start = "perobj" THEN <<Hole(ROW, PerObjEnv)>>
+               ELSE IF Prof.start = "perobj_div" THEN <<Hole(N, PerObjEnv), Hole(ICONST, PerObjEnv)>>
+               ELSE IF Prof.start = "perobj_rdiv" THEN <<Hole(N, PerObjEnv)>>
                ELSE IF Prof.rootnames = {} THEN <<Hole(TOP(ROW), <<>>)>> ELSE <<Hole([h |-> "root"], <<>>)>>
 GInit == toks = StartToks /\ agenda = StartAgenda
 
